@@ -257,16 +257,22 @@ func shortAVn(a AV) string {
 // ruleTokeniser (T6, validator side): the validator splits the NFKD form on exactly the NFKD
 // image of every separator the encoder uses, or on any white space.
 func (a *Analysis) ruleTokeniser(sepSeen map[string]string) {
-	r := a.R
 	if a.CM == nil || a.Gate3 == nil {
 		return
 	}
-	n := int64(12)
-	lcs := a.langCtxs()
-	if len(lcs) == 0 {
-		return
+	for _, W := range a.Gate3.passed() {
+		for _, lc := range a.langCtxs() {
+			if lc.Const == nil {
+				continue
+			}
+			W := W
+			a.tokeniserIn(a.sizeCtx("N", &W, a.Gate3, lc), sepSeen)
+		}
 	}
-	ctx := a.sizeCtx("N", &n, a.Gate3, lcs[0])
+}
+
+func (a *Analysis) tokeniserIn(ctx *Ctx, sepSeen map[string]string) {
+	r := a.R
 	e := a.eval(a.CM, ctx)
 	var tok *TokensV
 	for _, c := range e.Calls {
@@ -278,34 +284,34 @@ func (a *Analysis) ruleTokeniser(sepSeen map[string]string) {
 	}
 	pos := a.P.Pos(a.CM.Pos())
 	if tok == nil {
-		r.Unk("T6v", "CheckMnemonic/tokeniser", pos, "", "no tokeniser call found")
+		r.Unk("T6v", "CheckMnemonic/tokeniser", pos, ctx.Name, "no tokeniser call found")
 		return
 	}
 	tp := a.P.InstrPos(tok.Site)
 	in, _ := tok.In.(StrV)
 	if in.Kind != skNFKD {
-		r.Bad("T6v", "CheckMnemonic/tokeniser-input", tp, "", "the tokeniser input is %v, not the NFKD form of the argument", tok.In)
+		r.Bad("T6v", "CheckMnemonic/tokeniser-input", tp, ctx.Name, "the tokeniser input is %v, not the NFKD form of the argument", tok.In)
 	} else {
-		r.OK("T6v", "CheckMnemonic/tokeniser-input", tp, "", "tokeniser runs on %v", tok.In)
+		r.OK("T6v", "CheckMnemonic/tokeniser-input", tp, ctx.Name, "tokeniser runs on %v", tok.In)
 	}
 	if tok.Fn == "strings.Fields" {
-		r.OK("T6v", "CheckMnemonic/tokeniser-separator", tp, "", "strings.Fields splits on any White_Space; list words contain none (T5)")
+		r.OK("T6v", "CheckMnemonic/tokeniser-separator", tp, ctx.Name, "strings.Fields splits on any White_Space; list words contain none (T5)")
 		return
 	}
 	sep, _ := tok.Sep.(StrV)
 	if sep.Kind != skConst {
-		r.Bad("T6v", "CheckMnemonic/tokeniser-separator", tp, "", "separator %v is not a constant", tok.Sep)
+		r.Bad("T6v", "CheckMnemonic/tokeniser-separator", tp, ctx.Name, "separator %v is not a constant", tok.Sep)
 		return
 	}
 	ok := true
 	for s, lang := range sepSeen {
 		if norm.NFKD.String(s) != sep.S {
-			r.Bad("T6v", "CheckMnemonic/tokeniser-separator", tp, "", "encoder joins %s with %q whose NFKD form is %q, but the validator splits on %q", lang, s, norm.NFKD.String(s), sep.S)
+			r.Bad("T6v", "CheckMnemonic/tokeniser-separator", tp, ctx.Name, "encoder joins %s with %q whose NFKD form is %q, but the validator splits on %q", lang, s, norm.NFKD.String(s), sep.S)
 			ok = false
 		}
 	}
 	if ok {
-		r.OK("T6v", "CheckMnemonic/tokeniser-separator", tp, "", "splits on %q = NFKD of every separator the encoder uses (%d)", sep.S, len(sepSeen))
+		r.OK("T6v", "CheckMnemonic/tokeniser-separator", tp, ctx.Name, "splits on %q = NFKD of every separator the encoder uses (%d)", sep.S, len(sepSeen))
 	}
 }
 
